@@ -168,13 +168,17 @@ def run(ctx):
         items.append((iid, "file", b))
         g6 += 1
         # G2/G3 on every box shape: size / largesize / count corruption of the instance's own header (and of its parent when nested)
-        if e["pick"][0] == 0 and e["hdr"] == "s32" and e["cnt"] == 1 and (q is False or e["flags"] == 0):
+        if e["pick"][0] == 0 and e["hdr"] == "s32" and e["cnt"] == 1:
             boxes = [(0, len(b), 8, b[4:8], 0)]
             if e["wrap"] == "parent":
                 boxes.append((8, len(b) - 8, 8, b[12:16], 1))
             elif e["wrap"] == "sibling":
                 boxes.append((8, len(b) - 18, 8, b[12:16], 1))
-            ms = g2_header_mutations(iid, b, boxes) + g3_count_inflation(iid, b, boxes)
+            # the count under every flag subset (which fields a count multiplies depends on the flags); the quick tier
+            # corrupts the sizes only for the flag-less instance
+            ms = g3_count_inflation(iid, b, boxes)
+            if not q or e["flags"] == 0:
+                ms = g2_header_mutations(iid, b, boxes) + ms
             items += ms
             g6 += len(ms)
         if not q and e["pick"][0] == 0 and e["hdr"] == "s32" and e["wrap"] == "none" and e["cnt"] == 2:
